@@ -92,7 +92,9 @@ impl Property for C08 {
         let _cap_guard = CapGuard;
         crate::io_glue::IO_CAPACITY.with(|c| c.set(capacity));
         crate::io_glue::IO_ALIGN_SHIFT.with(|c| c.set(align_shift));
+        // budgets are computed from an upper bound of what goes over the wire (see Msgs::upper_total)
         let total = msgs.total();
+        let wire_upper = total.max(msgs.upper_total);
         let cuts = msgs.interesting_cuts(ty);
         let wchunks = gen_chunks(total, &cuts, &mut t);
         let rchunks = gen_chunks(total, &cuts, &mut t);
@@ -117,8 +119,8 @@ impl Property for C08 {
             )
         };
         if !joined {
-            let budget = 4 * total + wscript.len() + rscript.len() + 64;
-            let max_polls = pendings + 4 * total + 32;
+            let budget = 4 * wire_upper + wscript.len() + rscript.len() + 64;
+            let max_polls = pendings + 4 * wire_upper + 32;
             let mut sink = ScriptSink::new(wscript.clone(), WOut::Accept(usize::MAX), budget);
             sink.flush_script = fscript.clone();
             st.eval(1);
@@ -221,7 +223,7 @@ impl Property for C08 {
             };
             let slen = t.below(120);
             let schedule = t.take(slen);
-            let max_polls = 8 * (total + 1) + pendings * 2 + schedule.len() + 64;
+            let max_polls = 8 * (wire_upper + 1) + pendings * 2 + schedule.len() + 64;
             st.eval(1);
             msgs.install_post_ops();
             let retain_mask = if routes[4] % 3 == 0 { routes[3] as u64 } else { 0 };
